@@ -39,9 +39,7 @@ def generate(tier, seed):
             s = fitcase.gen_source(rng, nb, flags=flags)
             s['name'] = 'src_%02d' % i
             srcs.append(s)
-        nmin = rng.randint(0, 6)
-        minfit = 2 if c['mode'] == '2d' else 1
-        nmin = max(nmin, minfit)   # below that the regression is singular: outside the fit's quantifier
+        nmin = rng.choice([0, 0, 1, 2, 3, 3, 4, 5, 6])   # "any n_data_min": below 2 (1 in 3-D) the fits are singular (NaN) but a record is still due
         if not any(sum(1 for f in s['flags'] if f in (1, 4)) >= nmin for s in srcs):
             srcs[0]['flags'] = [1] * nb
             srcs[0] = dict(fitcase.gen_source(rng, nb, flags=[1] * nb), name='src_00')
